@@ -345,6 +345,14 @@ def generate(prop, ctx=None, write=True):
                     out.append(f"-- lead: {ld['kind']} {ld['attr']}  {ld['file']}:{ld['line']}  {ld['text'][:90]}")
                 out.append(f"theorem {hname} : HistoryFree {sname} = {'true' if hok else 'false'} := by decide")
                 obligations.append(dict(name=hname, cls=c.name, method=m, kind="history-query", value=hok, leads=_dedupe(hleads)))
+            if prop == "C13" and m not in MUTATING_METHODS:
+                # predict* / sample* / predict_target_distribution ...: pure readers of `self`
+                pok, pleads = pure_reader(sl)
+                pname = f"pure_{lean_ident(c.name)}_{m}"
+                for ld in pleads[:4]:
+                    out.append(f"-- lead: {ld['kind']} {ld.get('attr') or ld.get('path') or ''}  {ld['file']}:{ld['line']}  {ld['text'][:90]}")
+                out.append(f"theorem {pname} : pureReader {sname}.body = {'true' if pok else 'false'} := by decide")
+                obligations.append(dict(name=pname, cls=c.name, method=m, kind="pure", value=pok, leads=_dedupe(pleads)))
             if prop == "C13" and m == "fit":
                 hok, _, hleads = abscheck.history_free(r["params"], sl)
                 hname = f"fit_{lean_ident(c.name)}_historyFree"
@@ -404,6 +412,39 @@ def generate(prop, ctx=None, write=True):
     except Exception:
         pass
     return res
+
+
+# methods that are allowed to change the object (everything else a class exposes is a reader)
+MUTATING_METHODS = {"fit", "partial_fit", "update", "query", "query_by_utility", "set_params", "__init__"}
+
+
+def _is_self_path(p):
+    return p[0] == "attr" or (p[0] == "sub" and _is_self_path(p[1]))
+
+
+def pure_reader(items):
+    """Python mirror of `Ska.Effects.pureReader`: no attribute of `self` is written, nothing is mutated / fitted through an
+    attribute path of `self`.  Returns (holds, leads)."""
+    leads = []
+
+    def walk(its):
+        for it in its:
+            k = it[0]
+            if k == "writeAttr":
+                leads.append(dict(kind="attribute-write", attr=it[1], **_meta(it)))
+            elif k in ("mutate", "callFit") and _is_self_path(it[1]):
+                leads.append(dict(kind="mutation-through-self", path=str(it[1]), **_meta(it)))
+            elif k == "ite":
+                walk(it[1])
+                walk(it[2])
+
+    walk(items)
+    return not leads, leads
+
+
+def _meta(it):
+    m = it[-1] if isinstance(it[-1], dict) else {}
+    return dict(file=m.get("file", ""), line=m.get("line", 0), text=m.get("text", ""))
 
 
 def _dedupe(leads):
